@@ -48,6 +48,12 @@ type FaultCase struct {
 	SrcData bool   `json:"src_data,omitempty"`
 	// Linger: milliseconds the caller's source stalls right after the context was cancelled (fault "cancel").
 	Linger int `json:"linger,omitempty"`
+	// fault "io": the IONth step of kind IOKind (os.mkdir, os.create, os.readdir, badger.set) that the write
+	// performs fails once with an I/O error. Fresh: nothing was written before (no set-up writes), so that the
+	// write under test is the one that has to create the directories.
+	IOKind string `json:"io_kind,omitempty"`
+	IONth  int    `json:"io_nth,omitempty"`
+	Fresh  bool   `json:"fresh,omitempty"`
 }
 
 var errSource = errors.New("injected source reader failure")
@@ -196,12 +202,16 @@ func ExecC10(fc FaultCase) *ev.Result {
 	const key = "k"
 	// previous state of the key, plus an unrelated key that must never change
 	otherV := model.Val{Len: 10, Seed: 4242}
-	if err := w.DB.Set(w.ctx, "other", model.Bytes(otherV)); err != nil {
-		r.Failf("setup write failed: %v", err)
-		return r
+	if fc.Fresh {
+		fc.Prev = "absent"
+	} else {
+		if err := w.DB.Set(w.ctx, "other", model.Bytes(otherV)); err != nil {
+			r.Failf("setup write failed: %v", err)
+			return r
+		}
+		w.M.Write(0, "other", otherV)
+		w.noteContent(model.Bytes(otherV), "the unrelated key's content")
 	}
-	w.M.Write(0, "other", otherV)
-	w.noteContent(model.Bytes(otherV), "the unrelated key's content")
 	switch fc.Prev {
 	case "value", "deleted":
 		pv := model.Val{Len: fc.PrevLen, Seed: 777}
@@ -232,7 +242,15 @@ func ExecC10(fc FaultCase) *ev.Result {
 	}
 	var mu sync.Mutex
 	written := map[string]int{}
-	verifhook.SetPoint(func(kind, arg string) error { hookActivity.Add(1); return nil })
+	var ioSeen atomic.Int64
+	verifhook.SetPoint(func(kind, arg string) error {
+		hookActivity.Add(1)
+		if fc.Fault == "io" && kind == fc.IOKind && ioSeen.Add(1) == int64(fc.IONth) {
+			fired.Add(1)
+			return fmt.Errorf("%s %s: %w", kind, arg, syscall.EIO)
+		}
+		return nil
+	})
 	verifhook.SetWrite(func(path string, size int) (int, error) {
 		hookActivity.Add(1)
 		if fc.Fault != "enospc" {
@@ -371,6 +389,7 @@ func ExecC10(fc FaultCase) *ev.Result {
 		}
 	}
 	verifhook.SetWrite(nil)
+	verifhook.SetPoint(func(kind, arg string) error { hookActivity.Add(1); return nil })
 	if c.External || fc.Client == "handler" {
 		waitHooksQuiet()
 	}
@@ -393,8 +412,12 @@ func ExecC10(fc FaultCase) *ev.Result {
 	if didFire {
 		r.Class("fault-fired")
 	}
+	faultName := fc.Fault
+	if fc.Fault == "io" {
+		faultName = fmt.Sprintf("io (I/O error at step %d of kind %s, fresh database %v)", fc.IONth, fc.IOKind, fc.Fresh)
+	}
 	desc := fmt.Sprintf("%s of %d bytes over prev=%s, fault %s at %d (partial %d, faulty roots %v, free %v, source error %q with data %v, fired=%v) returned %v",
-		fc.Client, fc.Len, fc.Prev, fc.Fault, fc.Pos, fc.Partial, fc.Faulty, fc.Free, fc.SrcErr, fc.SrcData, didFire, werr)
+		fc.Client, fc.Len, fc.Prev, faultName, fc.Pos, fc.Partial, fc.Faulty, fc.Free, fc.SrcErr, fc.SrcData, didFire, werr)
 	mustFail, mustSucceed := false, false
 	switch {
 	case !didFire:
@@ -464,5 +487,19 @@ func ExecC10(fc FaultCase) *ev.Result {
 			}
 		}
 	}
+	if r.Fail != "" {
+		return r
+	}
+	// whatever went wrong is over: the next write (no faults any more) succeeds and is what everybody reads -
+	// a failed write leaves nothing behind that gets in the way of the next one, and every root still
+	// offers a directory
+	fv := model.Val{Len: 1 + fc.Len%4000, Seed: 31337}
+	w.noteContent(model.Bytes(fv), "the follow-up write's content")
+	if err := w.DB.Set(w.ctx, key, model.Bytes(fv)); err != nil {
+		r.Failf("%s; a follow-up write without any fault then failed: %v", desc, err)
+		return r
+	}
+	w.M.Write(0, key, fv)
+	w.ReadBackAuto(desc + "; after a follow-up write")
 	return r
 }
